@@ -274,3 +274,110 @@ func checkReducedOutputs(rule *report.Rule, cfg *edt.Config) int {
 	}
 	return n
 }
+
+// checkScalarWhole (rule DT-scalar-whole): two "consumes everything" facts about scalar routines
+// whose fast paths are tempting:
+//   - Scalar.BatchInvert returns only after BOTH passes (the forward product pass and the backward
+//     pass that overwrites every element): no path returns before the second loop was entered — a
+//     special case for short batches leaves inputs un-inverted;
+//   - Scalar.SetBytesModOrderWide packs, on every successful path, a reduction of ALL 64 input bytes
+//     (unpackedScalar.SetBytesWide of the input): a "high half is zero" shortcut decided on part of
+//     the bytes silently drops the rest (and branches on the value).
+func checkScalarWhole(rule *report.Rule, cfg *edt.Config) {
+	p := cfg.P
+	// BatchInvert
+	{
+		name, full := "(*Scalar).BatchInvert", "curve/scalar.(*Scalar).BatchInvert"
+		fn := p.Func("curve/scalar", name)
+		if fn == nil {
+			rule.Fail("-", full, "target function cannot be resolved (anchor lost)", nil)
+		} else {
+			opaque := map[string]bool{}
+			for _, o := range []string{"unpackedScalar.MontgomeryMul", "unpackedScalar.ToMontgomery", "unpackedScalar.FromMontgomery", "unpackedScalar.MontgomeryInvert", "Scalar.unpack", "Scalar.pack", "scalar.One", "scalar.New", "Scalar.Invert", "Scalar.Set"} {
+				opaque[o] = true
+			}
+			paths := edt.Walk(&edt.Config{P: p, Mod: cfg.Mod, Opaque: opaque, MaxPaths: 200, SymLoops: true}, fn)
+			bad, exits := "", 0
+			for _, pa := range paths {
+				if pa.Note != "" {
+					bad = "cannot follow the function: " + pa.Note
+					break
+				}
+				if pa.Panic != nil || strings.HasPrefix(pa.OutcomeString(), "next-iteration@") {
+					continue
+				}
+				exits++
+				loops := map[string]bool{}
+				for _, ev := range pa.Events {
+					if strings.HasPrefix(ev, "loop L") {
+						if i := strings.Index(ev, ":"); i > 0 {
+							loops[ev[:i]] = true
+						}
+					}
+				}
+				if len(loops) < 2 {
+					bad = "a path [" + clip(pa.LitString(), 120) + "] returns without having entered both passes over the inputs: the elements are not all replaced by their inverses"
+					break
+				}
+			}
+			switch {
+			case bad != "":
+				rule.Fail(p.Pos(fn.Pos()), full, bad, nil)
+			case exits == 0:
+				rule.Fail(p.Pos(fn.Pos()), full, "no returning path found", nil)
+			default:
+				rule.OK(full)
+			}
+		}
+	}
+	// SetBytesModOrderWide
+	{
+		name, full := "(*Scalar).SetBytesModOrderWide", "curve/scalar.(*Scalar).SetBytesModOrderWide"
+		fn := p.Func("curve/scalar", name)
+		if fn == nil {
+			rule.Fail("-", full, "target function cannot be resolved (anchor lost)", nil)
+			return
+		}
+		opaque := map[string]bool{}
+		for _, o := range []string{"unpackedScalar.MontgomeryReduce", "scalar.scalarMulInternal", "unpackedScalar.squareInternal", "unpackedScalar.Add", "unpackedScalar.Sub",
+			"unpackedScalar.SetBytes", "unpackedScalar.SetBytesWide", "unpackedScalar.ToBytes", "Scalar.SetBytesModOrder"} {
+			opaque[o] = true
+		}
+		paths := edt.Walk(&edt.Config{P: p, Mod: cfg.Mod, Opaque: opaque, MaxPaths: 200}, fn)
+		bad, oks := "", 0
+		for _, pa := range paths {
+			if pa.Note != "" {
+				bad = "cannot follow the function: " + pa.Note
+				break
+			}
+			out := pa.OutcomeString()
+			if pa.Panic != nil || strings.HasPrefix(out, "nil ;") || strings.HasPrefix(out, "nil;") {
+				continue // failing path: no scalar is produced
+			}
+			oks++
+			whole := false
+			for _, f := range pa.Final {
+				if strings.Contains(f.String(), "unpackedScalar.SetBytesWide(") {
+					whole = true
+				}
+			}
+			for _, ev := range pa.Events {
+				if strings.HasPrefix(ev, "unpackedScalar.SetBytesWide($") {
+					whole = true
+				}
+			}
+			if !whole {
+				bad = "a successful path [" + clip(pa.LitString(), 140) + "] does not reduce all 64 input bytes (no unpackedScalar.SetBytesWide of the input): part of the input is ignored"
+				break
+			}
+		}
+		switch {
+		case bad != "":
+			rule.Fail(p.Pos(fn.Pos()), full, bad, nil)
+		case oks == 0:
+			rule.Fail(p.Pos(fn.Pos()), full, "no successful path found", nil)
+		default:
+			rule.OK(full)
+		}
+	}
+}
